@@ -177,3 +177,59 @@ func TestServerTwoConnections(t *testing.T) {
 		lis.Close()
 	}
 }
+
+// four goroutines dispatch four different commands through one ServeMux (name handlers, an index
+// handler and a catch-all registered) while a fifth registers handlers: dispatch state must not be
+// shared between concurrent dispatches without synchronisation
+func TestConcurrentDispatchDifferentCommands(t *testing.T) {
+	mux := diam.NewServeMux()
+	var mu sync.Mutex
+	wrong := 0
+	expect := func(code uint32, req bool) diam.HandlerFunc {
+		return func(c diam.Conn, m *diam.Message) {
+			if m.Header.CommandCode != code || (m.Header.CommandFlags&0x80 != 0) != req {
+				mu.Lock()
+				wrong++
+				mu.Unlock()
+			}
+		}
+	}
+	mux.Handle("CER", expect(257, true))
+	mux.Handle("DWA", expect(280, false))
+	mux.Handle("DPR", expect(282, true))
+	mux.Handle("ACA", expect(271, false))
+	mux.HandleIdx(diam.CommandIndex{AppID: 0, Code: 258, Request: true}, expect(258, true))
+	mux.HandleFunc("ALL", func(c diam.Conn, m *diam.Message) {
+		mu.Lock()
+		wrong++
+		mu.Unlock()
+	})
+	go func() {
+		for range mux.ErrorReports() {
+		}
+	}()
+	var wg sync.WaitGroup
+	for _, k := range []struct {
+		code  uint32
+		flags uint8
+	}{{257, 0x80}, {280, 0}, {282, 0x80}, {271, 0}, {258, 0x80}} {
+		wg.Add(1)
+		go func(code uint32, flags uint8) {
+			defer wg.Done()
+			for i := 0; i < 3000; i++ {
+				mux.ServeDIAM(nil, diam.NewMessage(code, flags, 0, 1, 1, dict.Default))
+			}
+		}(k.code, k.flags)
+	}
+	wg.Add(1)
+	go func() {
+		defer wg.Done()
+		for i := 0; i < 200; i++ {
+			mux.HandleFunc("STR", func(diam.Conn, *diam.Message) {})
+		}
+	}()
+	wg.Wait()
+	if wrong != 0 {
+		t.Errorf("%d dispatches reached a handler registered for another command (or the catch-all)", wrong)
+	}
+}
